@@ -91,6 +91,14 @@ def run(repo, rep):
     rep.rule('C16.R3', 'the worklist provider/user and the c_find wrapper delegate and forward every pair unchanged, in order', 3)
     rep.rule('C16.R4', 'no message object is modified after it was passed to send(), incl. through a loop back-edge', 12)
 
+    rep.rule('C16.R8', 'the identifier and the matches are reassembled from all their fragments: an in-memory stream the reassembler '
+             'collects them in is not written at offset 0 over the content it was created with (same analysis as C07.D9)', 1)
+    from ..pitfalls import stream_overwrite_problems as _sop
+    _dec = repo.cls('fsm', 'DIMSEDecoder')
+    p8_, n8_ = _sop(repo, list(_dec.methods.values()) + [f_ for f_ in repo.all_functions() if f_.module.name == 'dsutils'])
+    rep.check(not p8_, 'C16.R8', 'fsm:DIMSEDecoder:collecting-streams', _dec.loc(),
+              '%d stream(s) created over content; none written to afterwards at offset 0' % n8_, '; '.join(p8_))
+
     # ---------------------------------------------------------------- R1
     f = repo.func('sopclass', 'qr_find_scp')
     rep.analysed(f)
